@@ -4,7 +4,7 @@ CONSTANTS
   InitAuthed <- TrConns
   Svcs = {1}
   Objs <- TrObjs
-  Methods = {100}
+  Methods = {100, 101}
   GenericActs = {8}
   FailTags <- TrFail
   QCap = 10
@@ -25,7 +25,8 @@ CONSTANTS
   ObjOf <- TrObjOf
   ActOf <- TrActOf
   Raws <- TrRaws
-INVARIANTS AtMostOneOutcome OwnResult ExecOnceIfOk ExecAtMostOnce PostAtMostOnce PostNoResponse OnlyCallAndPostExecute ErrorIsOwn NotDone
+  Deviations <- NoDev
+INVARIANTS AtMostOneOutcome OwnResult ExecOnceIfOk ExecAtMostOnce PostAtMostOnce PostNoResponse FramesOwed OnlyCallAndPostExecute ErrorIsOwn NotDone
 CONSTRAINT Track
 POSTCONDITION Report
 CHECK_DEADLOCK FALSE
